@@ -2137,12 +2137,18 @@ func checkBoundsBeforeSuccess(r *Reporter, p *Prog) {
 	}
 	n := 0
 	for _, fd := range p.AllFuncDecls(pkgSer) {
-		if fd.Body == nil || !fd.Name.IsExported() || strings.HasSuffix(p.Fset.Position(fd.Pos()).Filename, "_test.go") {
+		if fd.Body == nil || strings.HasSuffix(p.Fset.Position(fd.Pos()).Filename, "_test.go") {
 			continue
 		}
 		fkey := funcKey(pkgSer, fd)
 		f := newFuncCFG(p, info, fd.Body, fkey)
-		if len(f.Find(isCheck)) == 0 {
+		// judged where the check is written: an exported operation (with its small helpers in place), or
+		// the unexported body an operation delegates to when that body is too large to be spliced
+		if fd.Name.IsExported() {
+			if len(f.Find(isCheck)) == 0 {
+				continue
+			}
+		} else if len(f.FindOwn(isCheck)) == 0 || splicedEverywhere(p, pkgSer, fd) {
 			continue
 		}
 		n++
